@@ -10,7 +10,7 @@ ID = "C10"
 LEVEL = "proof"
 PROPERTIES_MODULE = "Properties.C10"
 COQ_TARGETS = ["Properties/C10.vo", "Model/Dispatch.vo"]
-THEOREMS = ["C10_source_flag", "C10_slot_update", "C10_slot_is_l_lowest", "C10_increments_are_spacings"]
+THEOREMS = ["C10_source_flag", "C10_slot_update", "C10_slot_is_l_lowest", "C10_increments_are_spacings", "C10_source_increment_is_the_proved_increment"]
 AXIOMS_ALLOWED = setflib.REAL_AXIOMS
 
 
@@ -26,7 +26,7 @@ def translate_formulas(run):
     return True, ""
 
 
-TRANSLATORS = [("flags-ord", sklib.translate_flags_ord), ("pmh-formulas", translate_formulas)]
+TRANSLATORS = [("flags-ord", sklib.translate_flags_ord), ("pmh-formulas", translate_formulas), ("pmh-formulas-from-source", setflib.translate_src("pmh"))]
 TRUSTED_BASE = [
     "hand model coq/Model/OrdMinHash.v tied to the code by per-run correspondence on the selected indices and values of every slot",
     "pair scripts are drawn through Exp1 and FYshuffle from the generator seeded with (element hash, occurrence number, seed)",
